@@ -144,6 +144,8 @@ fn check_state(b: &MessageBuilder, model: &Model, creds: &Creds, step: &str) -> 
     );
     // the builder's own queries agree with what it serialises
     let mut probes: Vec<u16> = got.iter().map(|a| a.0).collect();
+    let sib: Vec<u16> = probes.iter().flat_map(|t| [t.wrapping_add(64), t.wrapping_sub(64), *t ^ 0x8000, t.wrapping_add(32), t.wrapping_add(256)]).collect();
+    probes.extend(sib);
     probes.extend_from_slice(&[T_MI, T_SHA256, T_FP, 0x8022, 0x0006, 0x4444, 0xC001]);
     for ty in probes {
         let in_wire = got.iter().any(|a| a.0 == ty);
@@ -196,6 +198,9 @@ fn test(c: &Case, st: &mut Stats) -> TestResult {
         let step = format!("step {} {:?}", i, op);
         let probes: Vec<u16> = {
             let mut p: Vec<u16> = model.attrs.iter().map(|a| a.0).collect();
+            // siblings of the present types under the usual aliasing (same low bits, other comprehension bit)
+            let sib: Vec<u16> = p.iter().rev().take(3).flat_map(|t| [t.wrapping_add(64), t.wrapping_sub(64), *t ^ 0x8000, t.wrapping_add(256)]).collect();
+            p.extend(sib);
             p.extend_from_slice(&[T_MI, T_SHA256, T_FP, 0x8022, 0x0006, 0x4444]);
             p
         };
